@@ -260,6 +260,32 @@ func checkC23(c *Ctx, r *Report) {
 			continue
 		}
 		tests := aclTests(fn)
+		// the decisions the function can return, one per input of a merged return value (a function
+		// that computes `ok := decide(…)`, counts, and returns ok has one return and several decisions)
+		var vrets []retSite
+		for _, b := range fn.Blocks {
+			if ret, ok := b.Instrs[len(b.Instrs)-1].(*ssa.Return); ok && len(ret.Results) > 0 {
+				vrets = append(vrets, returnSites(ret, 0)...)
+			}
+		}
+		// edgeDecision: the decision taken when control enters block b (through pure jumps)
+		edgeDecision := func(b *ssa.BasicBlock) (retSite, bool) {
+			for i := 0; i < 8; i++ {
+				for _, vr := range vrets {
+					if vr.At.Block() == b {
+						return vr, true
+					}
+				}
+				if len(b.Instrs) == 1 {
+					if _, ok := b.Instrs[0].(*ssa.Jump); ok {
+						b = b.Succs[0]
+						continue
+					}
+				}
+				break
+			}
+			return retSite{}, false
+		}
 		var nD, nA int
 		var roots []*ssa.Function
 		trueEdgeTo := map[*ssa.BasicBlock]string{} // blocks entered on a test's true edge
@@ -291,7 +317,15 @@ func checkC23(c *Ctx, r *Report) {
 				}
 				for _, ifi := range ifs {
 					tgt := followJumps(ifi.T)
+					deniesHere := false
 					if v, ok := constBoolReturn(tgt); ok && !v {
+						deniesHere = true
+					} else if vr, ok := edgeDecision(ifi.T); ok {
+						if c, isC := strip(vr.Val).(*ssa.Const); isC && c.Value != nil && c.Value.ExactString() == "false" {
+							deniesHere = true
+						}
+					}
+					if deniesHere {
 						r.ok("C23.R1", key, m.Pos(t.call.Pos()), "")
 					} else {
 						r.viol("C23.R1", key, m.Pos(t.call.Pos()), "a matching deny rule does not lead to `return false`: deny no longer overrides")
@@ -347,12 +381,10 @@ func checkC23(c *Ctx, r *Report) {
 				return false
 			}),
 		}}
-		for _, b := range fn.Blocks {
-			ret, ok := b.Instrs[len(b.Instrs)-1].(*ssa.Return)
-			if !ok {
-				continue
-			}
-			for _, o := range origins(ret.Results[0]) {
+		for _, vr := range vrets {
+			b := vr.At.Block()
+			ret := vr.At
+			for _, o := range origins(vr.Val) {
 				switch x := strip(o).(type) {
 				case *ssa.Const:
 					if x.Value == nil {
@@ -391,6 +423,9 @@ func checkC23(c *Ctx, r *Report) {
 							}
 							for _, ifi := range ifsOn(fn, t.call) {
 								if followJumps(ifi.T) == b {
+									underDeny = true
+								}
+								if d, ok := edgeDecision(ifi.T); ok && d.At == vr.At {
 									underDeny = true
 								}
 							}
